@@ -520,7 +520,7 @@ func (x *Exec) inlineCall(st *State, u *UnitInfo, recv *Term, args []Term, k fun
 		for _, rv := range resVars {
 			rs = append(rs, st.vars[rv])
 		}
-		done(st, rs)
+		x.runDefers(st, func(st *State) { done(st, rs) })
 	})
 	x.info = saved
 }
